@@ -8,3 +8,5 @@ require (
 	golang.org/x/mod v0.22.0 // indirect
 	golang.org/x/sync v0.10.0 // indirect
 )
+
+require github.com/twmb/murmur3 v1.1.8
